@@ -235,3 +235,233 @@ def _nested_interface(gdesc: dict, ginfo: dict) -> dict:
         "all_inputs": ginfo["all_inputs"],
         "outputs": ginfo["outputs"],
     }
+
+
+# ---------------------------------------------------------------- gates
+
+def gen_gated_dag(rng: random.Random, *, max_nodes: int = 8, p_closed: float = 0.3) -> dict:
+    """Acyclic program with if/else and multi-way gates in front of groups of nodes.
+
+    Gates read integer run-time inputs or integer upstream values; targets are later nodes (or END / None /
+    fallback / several targets); branch nodes may produce the same output name (mutually exclusive producers).
+    """
+    names = Names()
+    nodes: list[dict] = []
+    ints: list[str] = []          # names known to hold integers (external or produced by `sum`)
+    produced: list[str] = []
+    required: list[str] = []
+    values: list = []
+
+    def new_int_input() -> str:
+        v = names.fresh("i")
+        required.append(v)
+        values.append([v, rng.randint(0, 4)])
+        ints.append(v)
+        return v
+
+    def plain_node(gated_inputs: bool = True) -> dict:
+        nname = names.fresh("n")
+        k = rng.choice([0, 1, 1, 2])
+        params = []
+        used = set()
+        for _ in range(k):
+            if produced and rng.random() < 0.6:
+                v = rng.choice(produced)
+            elif ints and rng.random() < 0.5:
+                v = rng.choice(ints)
+            else:
+                v = new_int_input()
+            if v in used:
+                continue
+            used.add(v)
+            params.append([v, None])
+        out = names.fresh("v")
+        if rng.random() < 0.5:
+            body = {"b": "sum", "k": rng.randint(0, 2)}
+            ints.append(out)
+        else:
+            body = {"b": "tag", "t": nname}
+        produced.append(out)
+        return _fn_node(nname, params, [out], body)
+
+    n = rng.randint(2, max_nodes)
+    i = 0
+    while i < n:
+        r = rng.random()
+        if r < 0.45 and i + 1 < n:
+            # a gate followed by its branch nodes
+            gname = names.fresh("g")
+            src = rng.choice(ints) if ints and rng.random() < 0.7 else new_int_input()
+            n_br = rng.randint(1, 3)
+            shared_out = names.fresh("v") if n_br >= 2 and rng.random() < 0.4 else None
+            branches = []
+            for _ in range(n_br):
+                b = plain_node()
+                if shared_out is not None:
+                    # mutually exclusive producers of one name
+                    old = b["dataOuts"][0]
+                    produced.remove(old)
+                    if old in ints:
+                        ints.remove(old)
+                    b["dataOuts"] = [shared_out]
+                    b["body"] = {"b": "tag", "t": b["name"]}
+                branches.append(b)
+            if shared_out is not None:
+                produced.append(shared_out)
+            default_open = rng.random() >= p_closed
+            if rng.random() < 0.45 and n_br <= 2:
+                t = branches[0]["name"]
+                f = branches[1]["name"] if n_br == 2 else "__END__"
+                if rng.random() < 0.5:
+                    t, f = f, t
+                gate = {"name": gname, "kind": "ifelse", "params": [[src, None]], "targets": [t, f],
+                        "body": {"b": "lt", "k": rng.randint(0, 4)}, "defaultOpen": default_open}
+            else:
+                targets = [b["name"] for b in branches]
+                multi = shared_out is None and rng.random() < 0.3
+                if rng.random() < 0.5:
+                    targets.append("__END__")
+                rows = []
+                for val in range(0, 5):
+                    if rng.random() < 0.8:
+                        if multi:
+                            rows.append([val, rng.sample(targets, rng.randint(0, len(targets)))])
+                        else:
+                            rows.append([val, rng.choice(targets + [None])])
+                dflt = [] if multi and rng.random() < 0.5 else None
+                fallback = rng.choice(targets) if (not multi and rng.random() < 0.3) else None
+                gate = {"name": gname, "kind": "route", "params": [[src, None]], "targets": targets,
+                        "multiTarget": multi, "fallback": fallback, "defaultOpen": default_open,
+                        "body": {"b": "table", "rows": rows, "dflt": dflt}}
+            nodes.append(gate)
+            nodes.extend(branches)
+            i += 1 + n_br
+        else:
+            nodes.append(plain_node())
+            i += 1
+    # several gates sharing a target: add a second gate in front of an already gated node
+    gated = [t for g in nodes if g["kind"] in ("route", "ifelse") for t in g["targets"] if t != "__END__"]
+    if gated and rng.random() < 0.3:
+        tgt = rng.choice(gated)
+        src = new_int_input()
+        nodes.insert(0, {"name": names.fresh("g"), "kind": "ifelse", "params": [[src, None]], "targets": [tgt, "__END__"],
+                         "body": {"b": "lt", "k": rng.randint(0, 4)}, "defaultOpen": rng.random() >= p_closed})
+    if rng.random() < 0.5:
+        rng.shuffle(nodes)
+    return {"program": [{"name": "g0", "nodes": nodes, "bound": []}], "values": values}
+
+
+# ---------------------------------------------------------------- loops
+
+def gen_loop(rng: random.Random, *, max_n: int = 6) -> dict:
+    """Gate-driven loop families (state gate / signal gate / exit node / accumulator)."""
+    names = Names()
+    family = rng.choice(["state", "state", "signal", "exit", "accum"])
+    k = rng.randint(1, 3)               # body length
+    n = rng.randint(0, max_n)           # iterations dictated by the gate: loop while x < n
+    x0 = rng.randint(0, 2)
+    nodes: list[dict] = []
+    x = "x"
+    prev = x
+    body_names = []
+    for j in range(k):
+        bn = f"b{j+1}"
+        body_names.append(bn)
+        out = x if j == k - 1 else f"y{j+1}"
+        node = _fn_node(bn, [[prev, None]], [out], {"b": "sum", "k": 1 if j == k - 1 else 0})
+        prev = out
+        nodes.append(node)
+    first = body_names[0]
+    default_open = rng.random() < 0.7
+    exit_target = "__END__"
+    if family == "exit":
+        nodes.append(_fn_node("done", [[x, None]], ["result"], {"b": "tag", "t": "done"}))
+        exit_target = "done"
+    if family == "signal":
+        nodes[-1]["emits"] = ["turn_done"]
+    if family == "accum":
+        # ungated accumulator fed by the loop variable: runs once per new x
+        nodes.append(_fn_node("acc", [["messages", None], [x, None]], ["messages"], {"b": "append"}))
+    gate_wait = ["turn_done"] if family == "signal" else []
+    if rng.random() < 0.5 and exit_target == "__END__" or family == "exit":
+        gate = {"name": "gate", "kind": "ifelse", "params": [[x, None]], "targets": [first, exit_target],
+                "body": {"b": "lt", "k": n}, "defaultOpen": default_open, "waitFor": gate_wait}
+    else:
+        rows = [[v, first] for v in range(0, n)]
+        gate = {"name": "gate", "kind": "route", "params": [[x, None]], "targets": [first, "__END__"],
+                "body": {"b": "table", "rows": rows, "dflt": "__END__"}, "defaultOpen": default_open, "waitFor": gate_wait}
+    nodes.append(gate)
+    if rng.random() < 0.5:
+        rng.shuffle(nodes)
+    values = [[x, x0]]
+    if family == "accum":
+        values.append(["messages", {"l": []}])
+    iters = max(0, n - x0)
+    # supersteps needed: (k+1) per iteration + final gate evaluation (+ exit node)
+    return {"program": [{"name": "g0", "nodes": nodes, "bound": []}], "values": values,
+            "loop": {"family": family, "k": k, "n": n, "x0": x0, "iters": iters, "defaultOpen": default_open}}
+
+
+# ---------------------------------------------------------------- configuration variants
+
+def all_fn_nodes(program: list[dict]) -> list[tuple[int, int]]:
+    return [(gi, ni) for gi, g in enumerate(program) for ni, n in enumerate(g["nodes"]) if n["kind"] == "fn"]
+
+
+def inject_failure(rng: random.Random, case: dict, how_many: int = 1) -> dict:
+    """Turn `how_many` function nodes (any nesting depth) into failing ones."""
+    import copy
+
+    c = copy.deepcopy(case)
+    fns = all_fn_nodes(c["program"])
+    rng.shuffle(fns)
+    failing = []
+    for gi, ni in fns[:how_many]:
+        n = c["program"][gi]["nodes"][ni]
+        n["body"] = {"b": "fail", "t": "E_" + n["name"]}
+        failing.append(f"{gi}:{n['name']}")
+    c["failing"] = failing
+    return c
+
+
+def with_cfg(rng: random.Random, case: dict, outputs: list[str] | None = None) -> dict:
+    """Random run options: error_handling, select (some names possibly never produced), on_missing."""
+    import copy
+
+    c = copy.deepcopy(case)
+    cfg: dict[str, Any] = {}
+    if rng.random() < 0.5:
+        cfg["errMode"] = rng.choice(["raise", "continue"])
+    outs = outputs
+    if outs is None:
+        outs = [o for n in c["program"][-1]["nodes"] for o in n.get("dataOuts", [])]
+    if outs and rng.random() < 0.5:
+        r = rng.random()
+        if r < 0.2:
+            cfg["select"] = "**"
+        else:
+            cfg["select"] = rng.sample(outs, rng.randint(1, min(3, len(outs))))
+        cfg["onMissing"] = rng.choice(["ignore", "warn", "error"])
+    c["cfg"] = cfg
+    return c
+
+
+def gen_failing_dag(rng: random.Random) -> dict:
+    c = gen_dag_program(rng, max_nodes=7, depth=rng.choice([0, 1, 2]))
+    c = inject_failure(rng, c, rng.choice([1, 1, 2]))
+    return with_cfg(rng, c)
+
+
+def gen_gated_cfg(rng: random.Random) -> dict:
+    c = gen_gated_dag(rng)
+    if rng.random() < 0.3:
+        c = inject_failure(rng, c)
+    return with_cfg(rng, c)
+
+
+def gen_loop_bounded(rng: random.Random) -> dict:
+    c = gen_loop(rng)
+    lp = c["loop"]
+    exact = (lp["k"] + 1) * lp["iters"] + 1 + (1 if lp["family"] == "exit" else 0)
+    c["cfg"] = {"maxIter": max(1, exact + rng.choice([-2, -1, 0, 0, 1, 5])), "errMode": rng.choice(["raise", "continue"])}
+    return c
